@@ -300,7 +300,9 @@ def families(ctx: Ctx, with_driver: bool = True):
         yield 'exh2-core', v11, (rng.sample(core, 1500) if ctx.quick() else core)
         yield 'flat-choice', v11, (rng.sample(flat, 800) if ctx.quick() else flat)
         yield 'flat-seq', v11, (rng.sample(fseq, 700) if ctx.quick() else fseq)
-        wm = c15.wildcard_models(v11)
+        # without the Lean driver the known deviations are recognised by the recorded list, which predates the
+        # ##defined / ##definedSibling forms
+        wm = c15.wildcard_models(v11, tokens=with_driver)
         yield 'leaf-pairs', v11, (rng.sample(wm, min(len(wm), 600)) if ctx.quick() else wm)
         yield 'edc', v11, edc
         if not with_driver:
